@@ -5,6 +5,8 @@ import (
 	"strconv"
 
 	"google.golang.org/grpc"
+	"google.golang.org/grpc/codes"
+	"google.golang.org/grpc/status"
 
 	"github.com/smart-core-os/sc-api/go/traits"
 )
@@ -31,16 +33,20 @@ func (m *ModelServer) ListWasteRecords(ctx context.Context, req *traits.ListWast
 	// this works with the current basic implementation because we only support a list of all events without filtering/sorting
 	// and the events are stored in ascending chronological order. If this either of these things change, this will need to be rethought
 	pageToken := req.GetPageToken()
-	startIndex := m.model.GetWasteRecordCount()
+	recordCount := m.model.GetWasteRecordCount()
+	startIndex := recordCount
 	if pageToken != "" {
-		_, err := strconv.Atoi(req.GetPageToken())
-		if err != nil {
-			return nil, err
+		var err error
+		startIndex, err = strconv.Atoi(pageToken)
+		if err != nil || startIndex < 0 || startIndex > recordCount {
+			return nil, status.Errorf(codes.InvalidArgument, "bad page token %q", pageToken)
 		}
-		startIndex, _ = strconv.Atoi(pageToken)
 	}
 
 	count := req.PageSize
+	if count < 0 {
+		return nil, status.Errorf(codes.InvalidArgument, "bad page size: %d is negative", count)
+	}
 	if count == 0 {
 		count = 50
 	} else if count > 1000 {
